@@ -189,7 +189,12 @@ func (s *Seq) opBatch(op *Op) {
 			}
 		}
 	}
-	s.afterWrite(failClasses == nil)
+	if len(objs) == 0 {
+		// an empty batch returns before anything is written or committed
+		s.rejected = false
+	} else {
+		s.afterWrite(failClasses == nil)
+	}
 	if failClasses != nil && expN > 0 {
 		s.rejected = false // part of a bulk was legitimately stored
 		if s.Cfg.Async {
